@@ -2481,6 +2481,7 @@ def parse_encoded(ctx: "Wtp", text: str) -> WikiNode:
         ret = ctx.parser_stack[0]
     finally:
         ctx.parser_stack = []
+        ctx.pre_parse = False
     return ret
 
 
